@@ -1,12 +1,8 @@
 /- C05 helper lemmas: the normal form of model runs (nested if-then-else) and one equation model = spec per operation. -/
-import Tetl.C05.Sites
 import Tetl.C05.Carried
 import Tetl.C05.Spec
 namespace Tetl.C05.Lemmas
 open Tetl.C05 Tetl.C05.Spec
-
-/-- projection of the regenerated inventory that the models must match -/
-def inventory : List (Key × Bool) := Sites.sites.map (fun s => (s.key, s.late))
 
 def Res.bind {α β} : Res α → (α → St → Res β) → Res β
   | .ok a s, f => f a s
